@@ -73,7 +73,13 @@ def suite_ops(ctx, case):
                     if op.get('zeros_then_fill'):
                         o = MatrixArray(length=L, rank=n, space=SP[op['sp']], types=types); o.data[:] = data
                     else:
-                        o = MatrixArray(length=L, rank=n, data=(data.astype(int) if op.get('intdata') else data.copy()), space=SP[op['sp']], types=types)
+                        arr_ = data.astype(int) if op.get('intdata') else data.copy()
+                        lay_ = op.get('layout')          # the data in the memory layouts users hand over: Fortran order, transposed (rank, rank, length) table, block of a larger array
+                        if lay_ == 'F': arr_ = np.asfortranarray(arr_)
+                        elif lay_ == 'T': arr_ = np.ascontiguousarray(arr_.transpose(2, 1, 0)).T
+                        elif lay_ == 'sub':
+                            big_ = np.zeros((L, n + 1, n + 1), dtype=arr_.dtype); big_[:, :n, :n] = arr_; arr_ = big_[:, :n, :n]
+                        o = MatrixArray(length=L, rank=n, data=arr_, space=SP[op['sp']], types=types)
                 objs.append(o); shadow.append((data.copy(), op['sp']))
                 line = 'ma.new %d %d %s %s' % (L, n, op['sp'], fl(data.reshape(-1)))
             elif k == 'binop':
@@ -225,6 +231,7 @@ def gen_case(rng, max_ops, maxL):
         if identity: o['identity'] = True
         else:
             o['data'] = rnd_matrix(rng, L_, n); o['zeros_then_fill'] = rng.random() < 0.3
+            if not o['zeros_then_fill']: o['layout'] = rng.choice(['C', 'C', 'F', 'T', 'sub'])
         ops.append(o); meta.append([L_, sp, 0, identity])
     new(L); new(L, sp=rng.choice([meta[0][1], meta[0][1], 'R', 'F', 'N']))
     if rng.random() < 0.6: new(1, sp=rng.choice(['N', 'N', 'R', 'F']))      # length-1 operands (density-like), in every space
